@@ -31,6 +31,7 @@ import (
 	"io"
 	"os"
 	"path/filepath"
+	"reflect"
 	"sort"
 	"strings"
 	"sync"
@@ -418,6 +419,19 @@ type instances struct {
 	v    verifierT
 }
 
+// leaf validity windows: the same key, subject and issuer, only the window differs. The short-lived leaf
+// ends 3 h from now: the 24 h expiry duration reaches past it, the 1 h duration does not.
+var certWindows = []string{"long-lived", "short-lived"}
+
+const shortLeafRemaining = 3 * time.Hour
+
+func ck(spec, window string) string {
+	if window == "" || window == "long-lived" {
+		return spec
+	}
+	return spec + "~" + window
+}
+
 func buildWorld(r *hx.Run) *world {
 	w := &world{chains: map[string]*pki.Chain{}}
 	// keys are generated once, sequentially (RSA-3072/4096 are slow the first time; cached on disk afterwards)
@@ -429,22 +443,30 @@ func buildWorld(r *hx.Run) *world {
 	for _, s := range pki.AllSpecs[1:] {
 		w.chains[s] = pki.NewChain(pki.ChainOpts{Len: 3, LeafSpec: s, LeafIdx: 0, Prefix: "C07 " + s, ReuseCAs: first.Certs[1:]})
 	}
+	nb, _ := pki.DefaultWindow()
+	for _, s := range pki.AllSpecs {
+		w.chains[ck(s, "short-lived")] = pki.NewChain(pki.ChainOpts{Len: 3, LeafSpec: s, LeafIdx: 0, ReuseCAs: first.Certs[1:],
+			Leaf: &pki.Tmpl{Subject: pki.Name("C07 " + s + " leaf"), NotBefore: nb, NotAfter: time.Now().Add(shortLeafRemaining).Truncate(time.Second)}})
+	}
 	w.dir = filepath.Join(hx.Scratch(), "c07-keys")
 	if err := os.MkdirAll(w.dir, 0o700); err != nil {
 		r.Infra("scratch: %v", err)
 		r.Finish()
 	}
-	for _, s := range pki.AllSpecs {
-		der, err := x509.MarshalPKCS8PrivateKey(w.chains[s].Leaf().Key)
-		if err == nil {
-			err = os.WriteFile(filepath.Join(w.dir, s+".key"), pem.EncodeToMemory(&pem.Block{Type: "PRIVATE KEY", Bytes: der}), 0o600)
-		}
-		if err == nil {
-			err = os.WriteFile(filepath.Join(w.dir, s+".crt"), pki.PEM(w.chains[s].X509()...), 0o600)
-		}
-		if err != nil {
-			r.Infra("writing key files: %v", err)
-			r.Finish()
+	for _, sp := range pki.AllSpecs {
+		for _, win := range certWindows {
+			s := ck(sp, win)
+			der, err := x509.MarshalPKCS8PrivateKey(w.chains[s].Leaf().Key)
+			if err == nil {
+				err = os.WriteFile(filepath.Join(w.dir, s+".key"), pem.EncodeToMemory(&pem.Block{Type: "PRIVATE KEY", Bytes: der}), 0o600)
+			}
+			if err == nil {
+				err = os.WriteFile(filepath.Join(w.dir, s+".crt"), pki.PEM(w.chains[s].X509()...), 0o600)
+			}
+			if err != nil {
+				r.Infra("writing key files: %v", err)
+				r.Finish()
+			}
 		}
 	}
 	ts := mocks.NewTrustStore().Put("ca", "s", first.Root().Cert)
@@ -475,13 +497,13 @@ type anySigner interface {
 
 // newSigner builds a fresh signer of the given kind (PluginSigner keeps per-call state).
 func (w *world) newSigner(c *caseT) (anySigner, *envPlugin, error) {
-	ch := w.chains[c.Spec]
+	ch := w.chains[ck(c.Spec, c.CertWindow)]
 	switch c.Signer {
 	case kindGeneric:
 		s, err := signer.NewGenericSigner(ch.Leaf().Key, ch.X509())
 		return s, nil, err
 	case kindFiles:
-		s, err := signer.NewGenericSignerFromFiles(filepath.Join(w.dir, c.Spec+".key"), filepath.Join(w.dir, c.Spec+".crt"))
+		s, err := signer.NewGenericSignerFromFiles(filepath.Join(w.dir, ck(c.Spec, c.CertWindow)+".key"), filepath.Join(w.dir, ck(c.Spec, c.CertWindow)+".crt"))
 		return s, nil, err
 	case kindRaw:
 		var der [][]byte
@@ -504,14 +526,15 @@ func (w *world) newSigner(c *caseT) (anySigner, *envPlugin, error) {
 // cases
 
 type caseT struct {
-	Spec      string `json:"key_spec"`
-	Format    string `json:"format"`
-	Signer    string `json:"signer"`
-	Target    string `json:"target"`
-	Delivery  string `json:"blob_delivery,omitempty"` // blobs: how the readers hand over the bytes (signing and verifying)
-	Meta      string `json:"user_metadata"`
-	ExpirySec int64  `json:"expiry_seconds"`
-	Agent     string `json:"signing_agent"`
+	Spec       string `json:"key_spec"`
+	CertWindow string `json:"leaf_validity,omitempty"` // "long-lived" (default) or "short-lived" (ends 3 h from now)
+	Format     string `json:"format"`
+	Signer     string `json:"signer"`
+	Target     string `json:"target"`
+	Delivery   string `json:"blob_delivery,omitempty"` // blobs: how the readers hand over the bytes (signing and verifying)
+	Meta       string `json:"user_metadata"`
+	ExpirySec  int64  `json:"expiry_seconds"`
+	Agent      string `json:"signing_agent"`
 	// Entry: "product" (fresh signer), "repository-path", "fault-history" (a blob call whose reader fails comes first,
 	// same signer and verifier instances), "instance-reuse" (Before is signed and verified first by the same instances)
 	Entry      string `json:"entry"`
@@ -525,7 +548,7 @@ func (c caseT) String() string {
 	if c.Delivery != "" {
 		t += "~" + c.Delivery
 	}
-	s := fmt.Sprintf("%s|%s|%s|%s|%s|%d|%s|%s", c.Spec, short(c.Format), c.Signer, t, c.Meta, c.ExpirySec, c.Agent, c.Entry)
+	s := fmt.Sprintf("%s|%s|%s|%s|%s|%d|%s|%s", ck(c.Spec, c.CertWindow), short(c.Format), c.Signer, t, c.Meta, c.ExpirySec, c.Agent, c.Entry)
 	if c.Entry == "fault-history" {
 		s += fmt.Sprintf("|after-%s-whose-reader-failed-at-byte-%d", c.FaultCall, c.FaultAfter)
 	}
@@ -782,13 +805,75 @@ var poison = func() []byte {
 	return b
 }()
 
+// verifyOpt is one setting of the verify-side options that the verifier must accept for the signed target.
+type verifyOpt struct {
+	label    string
+	noMT     bool              // blobs: ContentMediaType left empty
+	required map[string]string // UserMetadata that must be present in the signature
+}
+
+// verifyOpts enumerates the verify-side options independently of what was passed when signing:
+// content media type {as signed, not given} x required metadata {none, one signed pair, all signed pairs}.
+// The primary verification (media type as signed, nothing required) is not repeated.
+func verifyOpts(signedAnnotations map[string]string, blob bool) []verifyOpt {
+	keys := make([]string, 0, len(signedAnnotations))
+	for k := range signedAnnotations {
+		keys = append(keys, k)
+	}
+	sort.Strings(keys)
+	reqs := []verifyOpt{{label: "nothing-required"}}
+	if len(keys) > 1 {
+		reqs = append(reqs, verifyOpt{label: "one-signed-pair-required", required: map[string]string{keys[0]: signedAnnotations[keys[0]]}})
+	}
+	if len(keys) > 0 {
+		reqs = append(reqs, verifyOpt{label: "all-signed-pairs-required", required: copyMap(signedAnnotations)})
+	}
+	var out []verifyOpt
+	for _, noMT := range []bool{false, true} {
+		if noMT && !blob {
+			continue
+		}
+		for _, q := range reqs {
+			if !noMT && q.required == nil {
+				continue
+			}
+			o := q
+			o.noMT = noMT
+			if noMT {
+				o.label = "no-content-media-type+" + o.label
+			} else {
+				o.label = "content-media-type-as-signed+" + o.label
+			}
+			out = append(out, o)
+		}
+	}
+	return out
+}
+
+// judgeAlternate: a verification of the same signature under other verify-side options reports the same payload and metadata.
+func judgeAlternate(res *result, o *notation.VerificationOutcome, primaryPayload []byte, signed map[string]string, vo verifyOpt) {
+	if o == nil || o.EnvelopeContent == nil {
+		res.bad("roundtrip/no-envelope-content-on-success", "verification (%s) succeeded without envelope content", vo.label)
+		return
+	}
+	if !bytes.Equal(o.EnvelopeContent.Payload.Content, primaryPayload) {
+		res.bad("verify-options/reported-payload-differs", "verification (%s) reports payload %s, without options %s", vo.label, o.EnvelopeContent.Payload.Content, primaryPayload)
+	}
+	um, err := o.UserMetadata()
+	if err != nil {
+		res.bad("metadata/read-back-error", "UserMetadata() (%s): %v", vo.label, err)
+	} else if !sameMap(um, signed) {
+		res.bad("metadata/read-back-differs", "verification requiring %s: UserMetadata() = %s, signed %s", vt.MapString(vo.required), vt.MapString(um), vt.MapString(signed))
+	}
+}
+
 func flat(key string) string { return strings.ReplaceAll(key, "/", ".") }
 
 // runCase runs one history: a single round trip, or a round trip preceded by a failed blob call / by
 // another round trip of the same signer and verifier instances.
 func (w *world) runCase(r *hx.Run, c *caseT) *result {
-	if w.chains[c.Spec] == nil {
-		return &result{infra: "unknown key spec in " + c.String()}
+	if w.chains[ck(c.Spec, c.CertWindow)] == nil {
+		return &result{infra: "unknown key spec / leaf validity in " + c.String()}
 	}
 	s, envp, err := w.newSigner(c)
 	if err != nil {
@@ -810,7 +895,7 @@ func (w *world) runCase(r *hx.Run, c *caseT) *result {
 	if c.Entry == "fault-history" {
 		faultClass = w.faultCall(r, c, in, pre)
 	} else {
-		if c.Before == nil || c.Before.Spec != c.Spec || c.Before.Signer != c.Signer || c.Before.Agent != c.Agent {
+		if c.Before == nil || c.Before.Spec != c.Spec || c.Before.CertWindow != c.CertWindow || c.Before.Signer != c.Signer || c.Before.Agent != c.Agent {
 			return &result{infra: "instance-reuse needs a first case with the same signer in " + c.String()}
 		}
 		pre = w.roundTrip(r, c.Before, in)
@@ -935,6 +1020,39 @@ func (w *world) roundTrip(r *hx.Run, c *caseT, in *instances) *result {
 		default:
 			res.retAnn = "other"
 		}
+		// verify-side options vary independently of the sign-side ones: the same blob and signature must verify, and
+		// the descriptor of the blob, the reported payload and the read-back metadata cannot depend on them
+		if outcome == nil || outcome.EnvelopeContent == nil {
+			return res
+		}
+		kept := desc
+		kept.Annotations = copyMap(desc.Annotations)
+		primaryPayload := append([]byte(nil), outcome.EnvelopeContent.Payload.Content...)
+		for _, vo := range verifyOpts(meta, true) {
+			mt := t.MT
+			if vo.noMT {
+				mt = ""
+			}
+			r.Eval(1)
+			d2, o2, err := notation.VerifyBlob(ctx, in.v, bytes.NewReader(content), sig, notation.VerifyBlobOptions{
+				BlobVerifierVerifyOptions: notation.BlobVerifierVerifyOptions{SignatureMediaType: c.Format, UserMetadata: copyMap(vo.required)}, ContentMediaType: mt})
+			if err != nil {
+				res.bad("verify-options/verification-failed:"+vo.label, "notation.VerifyBlob with ContentMediaType=%q UserMetadata=%s rejects the signature (signed: media type %q, metadata %s): %v", mt, vt.MapString(vo.required), t.MT, vt.MapString(meta), err)
+				continue
+			}
+			if d2.MediaType != want.MediaType || string(d2.Digest) != want.Digest || d2.Size != want.Size {
+				res.bad("blob/returned-descriptor-differs", "VerifyBlob with ContentMediaType=%q UserMetadata=%s returned {mediaType:%q digest:%q size:%d}, the verified blob is {mediaType:%q digest:%q size:%d}",
+					mt, vt.MapString(vo.required), d2.MediaType, d2.Digest, d2.Size, want.MediaType, want.Digest, want.Size)
+			}
+			if !reflect.DeepEqual(d2, kept) && !(len(d2.Annotations) == 0 && len(kept.Annotations) == 0 && d2.MediaType == kept.MediaType && d2.Digest == kept.Digest && d2.Size == kept.Size) {
+				res.bad("blob/returned-descriptor-depends-on-verify-options", "same blob, same signature: VerifyBlob returned %+v with ContentMediaType=%q UserMetadata=%s, but %+v with ContentMediaType=%q and no required metadata",
+					d2, mt, vt.MapString(vo.required), kept, t.MT)
+			}
+			judgeAlternate(res, o2, primaryPayload, meta, vo)
+		}
+		if !reflect.DeepEqual(desc, kept) {
+			res.bad("blob/returned-descriptor-changed-by-later-calls", "the descriptor returned by the first VerifyBlob changed from %+v to %+v", kept, desc)
+		}
 		return res
 	}
 
@@ -982,6 +1100,19 @@ func (w *world) roundTrip(r *hx.Run, c *caseT, in *instances) *result {
 	}
 	res.verified = true
 	judgeOutcome(res, c, sig, outcome, want, wantAnn, agent, false)
+	if outcome == nil || outcome.EnvelopeContent == nil {
+		return res
+	}
+	primaryPayload := append([]byte(nil), outcome.EnvelopeContent.Payload.Content...)
+	for _, vo := range verifyOpts(wantAnn, false) {
+		r.Eval(1)
+		o2, err := in.v.Verify(ctx, t.Desc, sig, notation.VerifierVerifyOptions{ArtifactReference: ref, SignatureMediaType: c.Format, UserMetadata: copyMap(vo.required)})
+		if err != nil {
+			res.bad("verify-options/verification-failed:"+vo.label, "verifier.Verify requiring metadata %s rejects the signature (signed annotations %s): %v", vt.MapString(vo.required), vt.MapString(wantAnn), err)
+			continue
+		}
+		judgeAlternate(res, o2, primaryPayload, wantAnn, vo)
+	}
 	return res
 }
 
@@ -1087,14 +1218,14 @@ func report(r *hx.Run, c *caseT, res *result) string {
 
 func main() {
 	r := hx.New("C07")
-	r.Rule = "phase 1 (sequential, fresh process): for every key spec x format x signer kind x failing call {SignBlob, VerifyBlob} x failure point {0, half, all-but-one bytes} x delivery of the follow-up, a blob call whose reader fails is followed by an honest sign->verify round trip of the same signer and verifier instances; phase 2 (parallel): every element of key spec x format x signer kind x (32 OCI descriptors: annotations x every subset of urls/data/platform/artifactType | 8 blobs x 4 ways the readers deliver the bytes) x user metadata x expiry duration x signing agent is signed once by the real signing API and the bytes verified once by the real verification API; one notation.SignOCI -> in-memory repository -> notation.Verify trip per (key spec, format); instance reuse: every ordered pair of four configurations done by the same signer and verifier instances; non-trivial = distinct histories whose judged round trip succeeded (signature produced, verification succeeded), the only cases in which the reporting oracle is evaluated"
+	r.Rule = "phase 1 (sequential, fresh process): for every key spec x format x signer kind x failing call {SignBlob, VerifyBlob} x failure point {0, half, all-but-one bytes} x delivery of the follow-up, a blob call whose reader fails is followed by an honest sign->verify round trip of the same signer and verifier instances; phase 2 (parallel): every element of key spec x leaf validity {long-lived, short-lived: ends 3 h from now, before signing time + 24 h} x format x signer kind x (32 OCI descriptors: annotations x every subset of urls/data/platform/artifactType | 8 blobs x 4 ways the readers deliver the bytes) x user metadata x expiry duration x signing agent is signed once by the real signing API and the bytes verified by the real verification API once with the sign-side options and once for every other accepted setting of the verify-side options (blob content media type {as signed, not given} x required user metadata {none, one signed pair, all signed pairs}); one notation.SignOCI -> in-memory repository -> notation.Verify trip per (key spec, format); instance reuse: every ordered pair of four configurations done by the same signer and verifier instances; non-trivial = distinct histories whose judged round trip succeeded (signature produced, verification succeeded), the only cases in which the reporting oracle is evaluated"
 	r.Assumptions = []string{
 		"RSASSA-PSS / ECDSA / SHA-2 of the Go standard library are correct (used by the scripted plugins, lib/refsig and the oracle's digest recomputation)",
 		"the scripted plugins are honest: they sign exactly the bytes handed to them with the hash named in the request and honour expiryDurationInSeconds",
 		"the statement's 1 s expiry is replaced by 1 h so that no generated instant comes within 1 h of now",
 		"a signing error for a legal input is reported as a violation (roundtrip/sign-failed): the statement presupposes that every supported key spec can sign",
 		"the envelope-generator contract has no signing-agent field: for that signer kind the agent dimension selects the plugin's envelope builder (lib/forge vs notation-core-go)",
-		"the descriptor returned by VerifyBlob is judged on media type, digest and size only; its annotations are recorded, not judged",
+		"the descriptor returned by VerifyBlob is judged on media type (the signed one, also when the verifier was not told a media type), digest and size; its annotations are recorded, not judged, but the returned descriptor may not differ between verifications of the same blob and signature under different verify-side options",
 		"the result of a call whose reader fails is recorded, not judged; only the honest round trip after it is judged (keys after-failed-read/...)",
 	}
 	w := buildWorld(r)
@@ -1171,35 +1302,40 @@ func main() {
 	var cases []caseT
 	full := 0
 	for si, spec := range pki.AllSpecs {
-		for fi, f := range forge.Formats {
-			for ki, kind := range signerKinds {
-				for ti, td := range tds {
-					for mi, m := range metas {
-						for ei, e := range expirySeconds {
-							for ai, a := range agents {
-								full++
-								if !r.Thorough() {
-									// quick: RSA-3072/4096 and the 1 MiB blob only on a diagonal of the remaining dimensions
-									// (1 in 4); OCI targets with a proper subset of the extra fields and blobs delivered in pieces on a
-									// diagonal too (1 in 6, combined 1 in 24; the 1 MiB blob in pieces 1 in 48)
-									big := td.t.Blob && td.t.Size > 1<<20
-									pieces := td.t.Blob && td.d != "whole"
-									subset := !td.t.Blob && ti%16 != 0 && ti%16 != 15
-									every := 1
-									if slowSpec(spec) || big {
-										every = 4
+		for wi, win := range certWindows {
+			for fi, f := range forge.Formats {
+				for ki, kind := range signerKinds {
+					for ti, td := range tds {
+						for mi, m := range metas {
+							for ei, e := range expirySeconds {
+								for ai, a := range agents {
+									full++
+									if !r.Thorough() {
+										// quick: a diagonal of the product (1 in 2); RSA-3072/4096 and the 1 MiB blob on a sparser one
+										// (1 in 4); OCI targets with a proper subset of the extra fields and blobs delivered in pieces on a
+										// diagonal too (1 in 6, combined 1 in 24; the 1 MiB blob in pieces 1 in 48)
+										big := td.t.Blob && td.t.Size > 1<<20
+										pieces := td.t.Blob && td.d != "whole"
+										subset := !td.t.Blob && ti%16 != 0 && ti%16 != 15
+										every := 2
+										if slowSpec(spec) || big {
+											every = 4
+										}
+										if pieces || subset {
+											every *= 6
+										}
+										if big && pieces {
+											every = 48
+										}
+										if wi > 0 {
+											every *= 4 // the second leaf validity window on a diagonal
+										}
+										if (si+wi+fi+ki+ti+mi+ei+ai)%every != 0 {
+											continue
+										}
 									}
-									if pieces || subset {
-										every *= 6
-									}
-									if big && pieces {
-										every = 48
-									}
-									if (si+fi+ki+ti+mi+ei+ai)%every != 0 {
-										continue
-									}
+									cases = append(cases, caseT{Spec: spec, CertWindow: win, Format: f, Signer: kind, Target: td.t.Name, Delivery: td.d, Meta: m.Name, ExpirySec: e, Agent: a.Name, Entry: "product"})
 								}
-								cases = append(cases, caseT{Spec: spec, Format: f, Signer: kind, Target: td.t.Name, Delivery: td.d, Meta: m.Name, ExpirySec: e, Agent: a.Name, Entry: "product"})
 							}
 						}
 					}
@@ -1247,7 +1383,7 @@ func main() {
 	r.Extra["repository_path_cases"] = nRepo
 	r.Extra["instance_reuse_histories"] = nReuse
 	r.Extra["fault_histories"] = len(faults)
-	r.Extra["alphabet"] = map[string]int{"key_specs": len(pki.AllSpecs), "formats": 2, "signer_kinds": len(signerKinds), "oci_targets": 2 << len(extraFields), "blob_targets": len(blobSizes) * len(blobMTs), "blob_deliveries": len(deliveries),
+	r.Extra["alphabet"] = map[string]int{"key_specs": len(pki.AllSpecs), "leaf_validity_windows": len(certWindows), "verify_option_settings_per_signature_max": 6, "formats": 2, "signer_kinds": len(signerKinds), "oci_targets": 2 << len(extraFields), "blob_targets": len(blobSizes) * len(blobMTs), "blob_deliveries": len(deliveries),
 		"user_metadata": len(metas), "expiry_durations": len(expirySeconds), "signing_agents": len(agents), "fault_calls": 2, "fault_points": 3, "reuse_configurations": len(reuse)}
 
 	// results are reported in enumeration order, so the case written out for a violation key is always
@@ -1268,11 +1404,38 @@ func main() {
 		one(i) // sequential: a failed call may leave process-wide state behind, the next call must not see it
 	}
 	t1 := time.Now()
-	r.Parallel(len(cases), func(i int) { one(len(faults) + i) }, nil)
+	// the parallel phase visits the cases in a strided order, so that a run cut short by the internal deadline
+	// (machine under load) has still sampled every dimension evenly; reporting stays in enumeration order
+	if r.Thorough() {
+		r.SetDeadline(9 * time.Minute)
+	} else {
+		r.SetDeadline(38 * time.Second)
+	}
+	stride := 7919
+	for len(cases)%stride == 0 {
+		stride += 2
+	}
+	skipped := make([]bool, len(all))
+	var nSkipped atomic.Int64
+	r.Parallel(len(cases), func(i int) {
+		j := len(faults) + int((int64(i)*int64(stride))%int64(len(cases)))
+		if r.Expired() {
+			skipped[j] = true
+			nSkipped.Add(1)
+			return
+		}
+		one(j)
+	}, nil)
+	if n := nSkipped.Load(); n > 0 {
+		r.Capped(fmt.Sprintf("internal deadline: %d of %d parallel histories (strided order over the enumeration) and all %d sequential fault histories completed", int64(len(cases))-n, len(cases), len(faults)))
+	}
 	r.Extra["phase_wall_seconds"] = map[string]float64{"fault_histories_sequential": t1.Sub(t0).Seconds(), "product_and_reuse_parallel": time.Since(t1).Seconds()}
 	var verified, total int64
 	for i := range all {
 		c := &all[i]
+		if skipped[i] {
+			continue
+		}
 		total++
 		if results[i] == nil {
 			r.Violation("roundtrip/panic", fmt.Sprintf("[%s] panic in the sign/verify round trip: %s", c, panics[i]), c)
@@ -1292,6 +1455,7 @@ func main() {
 	}
 
 	clockTickFamily(r) // sequential: the clock of package signer is process-global
+	r.Extra["histories_skipped_by_deadline"] = nSkipped.Load()
 	r.Extra["histories"] = total
 	r.Extra["histories_whose_judged_round_trip_verified"] = verified
 	if verified == 0 {
